@@ -51,8 +51,10 @@ Record view := {
   v_clock : list N;      (* m.clock (live) *)
   v_qtick : N;           (* m.queueTick *)
   v_running : bool;      (* m.queueRunning *)
-  v_window : bool;       (* the call runs between setActiveStates and ProcessStateCtx of the
-                            transition in flight (informative: the manager does not read it) *)
+  v_window : bool;       (* the call runs at the schedule point tx:applied of the transition in
+                            flight - before the fix of emitEvents that was between
+                            setActiveStates and ProcessStateCtx (informative: the manager
+                            does not read it; it keeps the codes 2:674 / 2:675 narrow) *)
   v_applied : bool       (* the call runs between setActiveStates and processSubscriptions of
                             the transition in flight (informative) *)
 }.
